@@ -3,10 +3,14 @@
 (*   cust  logic.CustomizePubSessionContext -> remux.AvPacket2RtmpRemuxer                        *)
 (*   rtsp  RTP -> rtprtcp.RtpUnpackContainer/unpackers -> rtsp.AvPacketQueue -> remuxer          *)
 (*   ps    RTP -> gb28181.PsUnpacker (PES reassembly, frame boundary = PTS change) -> remuxer    *)
-(* A source stream is a sequence of frames [trk, ts, us]: track "v"/"a", source timestamp (32-bit,*)
-(* two 16-bit limbs; ticks of the track's clock, ms for cust, 90 kHz PTS for ps) and units        *)
+(* A source stream is a sequence of frames [trk, ts, d, us]: track "v"/"a", source timestamp ts    *)
+(* (the source's clock as it runs on, NOT reduced to the width of the wire field: 48 bits, three   *)
+(* 16-bit limbs <<h, m, l>>; ticks of the track's clock, ms for cust, 90 kHz PTS for ps), d = PTS  *)
+(* minus DTS in ticks (ps with a DTS field, one constant per track; 0 otherwise) and units         *)
 (* [k, id, n]: kind (vps sps pps aud idr p sei | au), id of the position-coded body, size         *)
-(* (parameter sets: number of filler bytes after the syntax prefix).                              *)
+(* (parameter sets: number of filler bytes after the syntax prefix).  What travels on the wire is  *)
+(* the clock modulo the width of the field (WBits): 2^32 for RTP timestamps, 2^33 for PES PTS/DTS, *)
+(* the whole int64 for AvPacket.Timestamp of the customize-pub API.                                *)
 (* The output is the sequence of messages a subscriber received:                                  *)
 (*   [t |-> "meta"]   [t |-> "vsh", ts, sets: <<[k, n, eq]>>, ok]   [t |-> "ash", ts, asc, ok]      *)
 (*   [t |-> "v", key, ts, us: <<[k, id, n, eq]>>, ok]   [t |-> "a", fmt, ts, us, ok]               *)
@@ -20,7 +24,14 @@
 (*        parameter set); units of the sentinel frames (id >= SentId) are ignored                 *)
 (*   KeyMarked    a video message is marked key iff it carries an IDR/IRAP unit                   *)
 (*   TimeAffine   per track out(i) - out(first) = floor((src(i) - src(first)) * 1000 / rate) +- 1 *)
-(*        for every forwarded unit: no cumulative drift                                           *)
+(*        modulo 2^32 (the width of an RTMP timestamp) for every forwarded unit: no cumulative    *)
+(*        drift.  src is, for the whole track, one of the VIEWS of the source clock:              *)
+(*          0  the clock as it runs on (a wrap of the wire field is not visible in the output)    *)
+(*          1  the wire field itself, ts mod 2^WBits (the output repeats the jump of -2^WBits     *)
+(*             ticks the source's field makes when it wraps, and nothing else)                    *)
+(*          2  ps: the DTS field, (ts - d) mod 2^33                                               *)
+(*        Below the wrap of the field the views differ by a constant; a jump anywhere else (2^31, *)
+(*        2^32 on the 33-bit PS clock, 2^32 ms of the customize API) fits no view.                *)
 (*   ReorderInvariant  Conforms does not mention the arrival order: every arrival order inside    *)
 (*        the window, duplicate and first sequence number must give a conforming output           *)
 (* Machine is the design: the chain of deterministic machines (timestamp conversion, A/V queue,   *)
@@ -43,11 +54,38 @@ ToInt(a) == a[1] * 65536 + a[2]
 \* floor(d * 1000 / rate) for 0 <= d < 2^31, 1000 <= rate <= 96000, without overflow
 MsOf(d, rate) == (d \div rate) * 1000 + ((d % rate) * 1000) \div rate
 Abs(x) == IF x < 0 THEN -x ELSE x
-Aff(o, o0, s, s0, rate) ==
-  LET ds == USub(s, s0)
-      do == USub(o, o0)
-  IN /\ Small(ds) /\ Small(do)
-     /\ Abs(ToInt(do) - MsOf(ToInt(ds), rate)) <= 1
+
+\* 48-bit naturals as <<h, m, l>>
+T3Lt(a, b) == a[1] < b[1] \/ (a[1] = b[1] /\ (a[2] < b[2] \/ (a[2] = b[2] /\ a[3] < b[3])))
+T3Sub(a, b) == LET l == a[3] - b[3]                          \* a >= b
+                   bl == IF l < 0 THEN 1 ELSE 0
+                   m == (a[2] - b[2]) - bl
+                   bm == IF m < 0 THEN 1 ELSE 0
+               IN  <<(a[1] - b[1]) - bm, (m + 65536) % 65536, (l + 65536) % 65536>>
+T3AddN(a, k) == LET l == a[3] + k                            \* 0 <= k < 2^31 - 2^16
+                    m == a[2] + (l \div 65536)
+                IN  <<a[1] + (m \div 65536), m % 65536, l % 65536>>
+T3SubN(a, k) == T3Sub(a, T3AddN(<<0, 0, 0>>, k))             \* a >= k
+Mask(a, w) == IF w = 32 THEN <<0, a[2], a[3]>> ELSE IF w = 33 THEN <<a[1] % 2, a[2], a[3]>> ELSE a
+\* floor(x * 1000 / rate) for x < 3 * 2^32 at rates >= 8000, x < 2^31 below (InRange): long division, one byte at a time
+RECURSIVE DivR(_, _, _, _, _)
+DivR(dg, i, r, q, rem) == IF i > Len(dg) THEN [q |-> q, rem |-> rem]
+                          ELSE LET c == rem * 256 + dg[i] IN DivR(dg, i + 1, r, q * 256 + (c \div r), c % r)
+MsT(x, rate) == LET y == DivR(<<x[1] \div 256, x[1] % 256, x[2] \div 256, x[2] % 256, x[3] \div 256, x[3] % 256>>, 1, rate, 0, 0)
+                IN  y.q * 1000 + ((y.rem * 1000) \div rate)
+InRange(x, rate) == x[1] < (IF rate < 8000 THEN 1 ELSE 3) /\ (rate >= 8000 \/ x[2] < 32768)
+\* o, o0: output timestamps (32 bits); v, v0: the source clock of the two units in one view
+Aff(o, o0, v, v0, rate) ==
+  IF T3Lt(v, v0)
+  THEN LET dd == USub(o0, o)
+           ds == T3Sub(v0, v)
+       IN Small(dd) /\ InRange(ds, rate) /\ Abs(ToInt(dd) - MsT(ds, rate)) <= 1
+  ELSE LET dd == USub(o, o0)
+           ds == T3Sub(v, v0)
+       IN Small(dd) /\ InRange(ds, rate) /\ Abs(ToInt(dd) - MsT(ds, rate)) <= 1
+WBits(path) == IF path = "rtsp" THEN 32 ELSE IF path = "ps" THEN 33 ELSE 0
+Views(path) == IF path = "rtsp" THEN {0, 1} ELSE IF path = "ps" THEN {0, 1, 2} ELSE {0}
+ViewOf(f, c, w) == IF c = 0 THEN f.ts ELSE IF c = 1 THEN Mask(f.ts, w) ELSE Mask(T3SubN(f.ts, f.d), w)
 
 ---------------------------------------------------------------------------
 (* What the source defines.                                                                       *)
@@ -113,10 +151,12 @@ Same(o, r) == /\ o.t = r.t /\ o.ok
               /\ IF o.t = "sh" THEN o.sets = r.sets ELSE (o.k = r.k /\ o.id = r.id /\ o.n = r.n)
 SameFrom(obs, req, k) == /\ Len(obs) = (Len(req) - k) + 1
                          /\ \A i \in 1..Len(obs) : Same(obs[i], req[(k + i) - 1])
-TimeOk(obs, req, k, frames, rate) ==
+TimeOk(path, obs, req, k, frames, rate) ==
   LET ui == {i \in 1..Len(obs) : obs[i].t = "u"} IN
   ui = {} \/ LET a == CHOOSE x \in ui : \A y \in ui : x <= y IN
-             \A i \in ui : Aff(obs[i].ts, obs[a].ts, frames[req[(k + i) - 1].f].ts, frames[req[(k + a) - 1].f].ts, rate)
+             \E c \in Views(path) :
+               \A i \in ui : Aff(obs[i].ts, obs[a].ts, ViewOf(frames[req[(k + i) - 1].f], c, WBits(path)),
+                                 ViewOf(frames[req[(k + a) - 1].f], c, WBits(path)), rate)
 \* the ps path forwards video from the first parameter set on
 FirstSh(req) == LET s == {i \in 1..Len(req) : req[i].t = "sh"} IN
                 IF s = {} THEN Len(req) + 1 ELSE CHOOSE x \in s : \A y \in s : x <= y
@@ -128,11 +168,11 @@ ARate(path, arate) == IF path = "cust" THEN 1000 ELSE IF path = "ps" THEN 90000 
 SameUnitsV(path, vc, frames, sdp, vrate, out) ==
   LET req == SelectSeq(ReqV(vc, frames, sdp), NotSent)
       obs == Obs(out, {"vsh", "v"})
-  IN \E k \in 1..K0(path, req) : SameFrom(obs, req, k) /\ TimeOk(obs, req, k, frames, VRate(path, vrate))
+  IN \E k \in 1..K0(path, req) : SameFrom(obs, req, k) /\ TimeOk(path, obs, req, k, frames, VRate(path, vrate))
 SameUnitsA(path, ac, frames, asc, arate, out) ==
   LET req == SelectSeq(ReqA(ac, frames, asc), NotSent)
       obs == Obs(out, {"ash", "a"})
-  IN SameFrom(obs, req, 1) /\ TimeOk(obs, req, 1, frames, ARate(path, arate))
+  IN SameFrom(obs, req, 1) /\ TimeOk(path, obs, req, 1, frames, ARate(path, arate))
 KeyMarked(out) ==
   \A i \in 1..Len(out) :
      out[i].t = "v" => /\ Len(out[i].us) >= 1
@@ -144,7 +184,8 @@ Conforms(path, vc, ac, vrate, arate, asc, sdp, frames, out) ==
   /\ KeyMarked(out)
 
 ---------------------------------------------------------------------------
-(* The design.  AvPackets are [trk, ms, us].                                                      *)
+(* The design.  AvPackets are [trk, ms, us]; ms is a plain integer up to the remuxer, which takes  *)
+(* <<hi, lo>> = AvPacket.Timestamp modulo 2^32.                                                  *)
 
 \* remux.AvPacket2RtmpRemuxer: st = [ps]; one AvPacket -> messages
 RECURSIVE RemuxUnits(_, _, _, _, _, _)
@@ -156,7 +197,7 @@ RemuxUnits(vc, us, i, ps, ms, data) ==          \* -> [msgs, ps, data]
        THEN LET p2 == [ps EXCEPT ![u.k] = u.n] IN
             IF Complete(vc, p2)
             THEN LET r == RemuxUnits(vc, us, i + 1, NoSets, ms, data)
-                     sh == [t |-> "vsh", ts |-> UOf(ms), ok |-> TRUE,
+                     sh == [t |-> "vsh", ts |-> ms, ok |-> TRUE,
                             sets |-> [x \in 1..Len(Need(vc)) |-> [k |-> Need(vc)[x], n |-> p2[Need(vc)[x]], eq |-> TRUE]]]
                  IN [msgs |-> <<sh>> \o r.msgs, ps |-> r.ps, data |-> r.data]
             ELSE RemuxUnits(vc, us, i + 1, p2, ms, data)
@@ -164,12 +205,12 @@ RemuxUnits(vc, us, i, ps, ms, data) ==          \* -> [msgs, ps, data]
 Fmt(ac) == IF ac = "aac" THEN 175 ELSE IF ac = "pcma" THEN 114 ELSE IF ac = "pcmu" THEN 130 ELSE 223
 RemuxPkt(vc, ac, ps, p) ==                       \* -> [msgs, ps]
   IF p.trk = "a"
-  THEN [msgs |-> <<[t |-> "a", fmt |-> Fmt(ac), ts |-> UOf(p.ms), ok |-> TRUE,
+  THEN [msgs |-> <<[t |-> "a", fmt |-> Fmt(ac), ts |-> p.ms, ok |-> TRUE,
                     us |-> <<[k |-> "au", id |-> p.us[1].id, n |-> p.us[1].n, eq |-> TRUE]>>]>>, ps |-> ps]
   ELSE LET r == RemuxUnits(vc, p.us, 1, ps, p.ms, <<>>)
            key == \E j \in 1..Len(r.data) : r.data[j].k = "idr"       \* any IDR/IRAP unit of the packet
        IN [msgs |-> r.msgs \o (IF r.data = <<>> THEN <<>>
-                               ELSE <<[t |-> "v", key |-> key, ts |-> UOf(p.ms), us |-> r.data, ok |-> TRUE]>>),
+                               ELSE <<[t |-> "v", key |-> key, ts |-> p.ms, us |-> r.data, ok |-> TRUE]>>),
            ps |-> r.ps]
 RECURSIVE RemuxAll(_, _, _, _, _, _)
 RemuxAll(vc, ac, pkts, i, ps, acc) ==
@@ -200,18 +241,24 @@ QAll(pkts, i, q) == IF i > Len(pkts) THEN q.out ELSE QAll(pkts, i + 1, QFeed(q, 
 
 \* the RTP path: the plan says which units travel in which packet (p = [f, us, i, m]); the jitter
 \* buffer hands the packets over in sequence order, each once (Rtp.tla: Lossless inside the window);
-\* an AvPacket leaves the unpacker with the last packet of a unit / an aggregate
+\* an AvPacket leaves the unpacker with the last packet of a unit / an aggregate.  The unpacker
+\* extends the 32-bit RTP timestamp by the (signed, modulo 2^32) steps it sees, starting from the
+\* first value on the wire, and converts the extended value: a wrap of the field is not visible
 Pick(us, idx) == [x \in 1..Len(idx) |-> us[idx[x]]]
+FirstOf(frames, t) == CHOOSE j \in 1..Len(frames) : frames[j].trk = t /\ \A i \in 1..(j - 1) : frames[i].trk # t
+ExtTs(frames, f) == LET f0 == frames[FirstOf(frames, f.trk)]
+                    IN  T3AddN(Mask(f0.ts, 32), ToInt(<<T3Sub(f.ts, f0.ts)[2], T3Sub(f.ts, f0.ts)[3]>>))
 RtpPkts(frames, plan, vrate, arate) ==
   LET done == SelectSeq(plan, LAMBDA p : p.i = p.m)
   IN [x \in 1..Len(done) |->
         LET f == frames[done[x].f]
-        IN [trk |-> f.trk, ms |-> MsOf(ToInt(f.ts), IF f.trk = "v" THEN vrate ELSE arate), us |-> Pick(f.us, done[x].us)]]
+        IN [trk |-> f.trk, ms |-> MsT(ExtTs(frames, f), IF f.trk = "v" THEN vrate ELSE arate), us |-> Pick(f.us, done[x].us)]]
 
 \* the PS path: every frame is written as PES packets of its track; a PES with a PTS that differs
 \* from the one under assembly closes the frame under assembly; every NAL unit of a closed video
 \* frame is one AvPacket, forwarded from the first parameter set on; the last frame of a track
-\* stays in the buffer
+\* stays in the buffer.  Video takes the 33-bit PTS field / 90, audio the DTS field / 90
+PsMs(f) == MsT(Mask(IF f.trk = "a" THEN T3SubN(f.ts, f.d) ELSE f.ts, 33), 90000)
 RECURSIVE PsFrom(_, _, _, _, _)
 PsFrom(frames, j, cur, wait, acc) ==      \* cur = [v |-> frame under assembly or 0, a |-> ...]
   IF j > Len(frames) THEN acc
@@ -219,7 +266,7 @@ PsFrom(frames, j, cur, wait, acc) ==      \* cur = [v |-> frame under assembly o
            c == cur[t]
        IN IF c = 0 THEN PsFrom(frames, j + 1, [cur EXCEPT ![t] = j], wait, acc)
           ELSE LET f == frames[c]
-                   ms == ToInt(f.ts) \div 90
+                   ms == PsMs(f)
                IN IF t = "a"
                   THEN PsFrom(frames, j + 1, [cur EXCEPT ![t] = j], wait, Append(acc, [trk |-> "a", ms |-> ms, us |-> f.us]))
                   ELSE LET firstSet == {i \in 1..Len(f.us) : f.us[i].k \in ParamKinds}
@@ -231,14 +278,16 @@ PsFrom(frames, j, cur, wait, acc) ==      \* cur = [v |-> frame under assembly o
                                  acc \o [x \in 1..((Len(f.us) - from) + 1) |-> [trk |-> "v", ms |-> ms, us |-> <<f.us[(from + x) - 1]>>]])
 PsPkts(frames) == PsFrom(frames, 1, [v |-> 0, a |-> 0], TRUE, <<>>)
 
-CustPkts(frames) == [j \in 1..Len(frames) |-> [trk |-> frames[j].trk, ms |-> ToInt(frames[j].ts), us |-> frames[j].us]]
+\* the customize API: AvPacket.Timestamp is an int64 in ms; the RTMP timestamp is its low 32 bits
+CustPkts(frames) == [j \in 1..Len(frames) |-> [trk |-> frames[j].trk, ms |-> <<frames[j].ts[2], frames[j].ts[3]>>, us |-> frames[j].us]]
+Limbed(pk) == [x \in 1..Len(pk) |-> [pk[x] EXCEPT !.ms = UOf(pk[x].ms)]]
 
 HasTrk(frames, t) == \E j \in 1..Len(frames) : frames[j].trk = t
 Machine(path, vc, ac, vrate, arate, asc, sdp, frames, plan) ==
   LET pk == IF path = "cust" THEN CustPkts(frames)
-            ELSE IF path = "ps" THEN PsPkts(frames)
+            ELSE IF path = "ps" THEN Limbed(PsPkts(frames))
             ELSE LET r == RtpPkts(frames, plan, vrate, arate)
-                 IN IF vc # "none" /\ ac # "none" THEN QAll(r, 1, QInit) ELSE r
+                 IN Limbed(IF vc # "none" /\ ac # "none" THEN QAll(r, 1, QInit) ELSE r)
       pre == (IF ac = "aac" /\ (path # "ps" \/ HasTrk(frames, "a")) THEN <<[t |-> "ash", ts |-> <<0, 0>>, asc |-> asc, ok |-> TRUE]>> ELSE <<>>)
              \o (IF sdp = <<>> THEN <<>>
                  ELSE <<[t |-> "vsh", ts |-> <<0, 0>>, ok |-> TRUE, sets |-> [x \in 1..Len(sdp) |-> [k |-> sdp[x].k, n |-> sdp[x].n, eq |-> TRUE]]]>>)
